@@ -169,7 +169,11 @@ func (r *renderer) deco(depth int) {
 		return
 	}
 	for r.rng.chance(r.l.DecoPct) {
-		switch r.rng.intn(4) {
+		switch r.rng.intn(6) {
+		case 4: // whitespace-only line mixing spaces and tabs: it carries no indentation, so nothing is mixed
+			r.sb.WriteString([]string{" \t", "\t ", "  \t  ", "\t\t "}[r.rng.intn(4)] + r.nl)
+		case 5: // comment-only line behind mixed whitespace
+			r.sb.WriteString([]string{" \t", "\t ", "    \t"}[r.rng.intn(3)] + "// note behind mixed whitespace" + r.nl)
 		case 0:
 			r.sb.WriteString(r.nl)
 		case 1: // whitespace-only line, same indentation character as the file
